@@ -2,6 +2,7 @@ import Dia.Dump
 import Dia.Exec
 import Dia.Server
 import Dia.StreamSeq
+import Dia.StreamAll
 import Dia.Fixed
 import Dia.ClientPolite
 import Dia.Tls
@@ -107,7 +108,7 @@ def parseWEvs (s : String) : Option (List WEv) :=
     else if t.startsWith "a" then (t.drop 1).toString.toNat?.map .accept else none
 
 def sdecLine (cfg : Cfg) (dict : Lookup) (n : Nat) (evs : List REv) : String :=
-  String.intercalate ";" ((decodeSeq cfg dict n evs).map fun (o, used) =>
+  String.intercalate ";" ((decodeSeqAll cfg dict n evs).map fun (o, used) =>
     match o with
     | .ok m => "ok:" ++ m.dump ++ "@" ++ toString used
     | .err _ => "err@" ++ toString used
@@ -333,6 +334,11 @@ def defsNamed (D : Dict) (n : String) : List Def := (D.avps.filter fun kd => kd.
 
 def step (s : DState) (line : String) : DState × String :=
   let toks := line.trimAscii.toString.splitOn " "
+  -- `repeat <n> <probe ...>`: the harness runs the probe n times on one thread (state that builds up inside the library
+  -- must not show); probes are functions of the state, so the model runs it once
+  let toks := match toks with
+    | "repeat" :: _ :: rest => rest
+    | _ => toks
   let plain (st : DState) (a : String) : DState × String := (st, a ++ " | - | -")
   match toks with
   | "cfg" :: limit :: sh :: lo :: rest =>
@@ -479,6 +485,7 @@ def step (s : DState) (line : String) : DState × String :=
     | none => plain s "bad-op"
   | "tls" :: rest => (s, tlsLine rest)
   | "tlsrude" :: _ => (s, "refused clear=0 conns=1 | refused | -")   -- a failed handshake is a refusal, whatever `verify` says
+  | ["rmode", _] => plain s "."                -- how the reader hands out the octets is invisible to the model
   | ["cliswitch", _] => plain s "first=err reader1_stopped=1"
   | ["tlsq", cells] =>
     -- cells of the table one after the other in one process: each cell's prediction is the cell's own (no state is carried)
